@@ -99,6 +99,7 @@ class Policy:
         self.illegal = 0.15             # attempt an illegal request before the legal one
         self.explicit_player = 0.4
         self.discard = 0.7
+        self.exhaust = False            # draw games: discard so that the deck runs out exactly
         self.allow_orphan = False
         self.probe_level = 1
         self.probe_every = 1.0
@@ -150,7 +151,18 @@ def legal_moves(st: State, rng: random.Random, pol: Policy, werr: bool):
     if any(st.standing_pat_or_discarding_statuses):
         j = st.stander_pat_or_discarder_index
         h = [card_int(c) for c in st.hole_cards[j]]
-        if rng.random() < pol.discard and h:
+        if pol.exhaust and h:
+            # aim at a deck that is exactly empty once this street's replacement cards are out (boundary of the replenish
+            # rule and of whatever is due next)
+            si = st.street_index
+            target = len(st.deck_cards) - (1 if st.card_burning_status else 0)
+            done = len(st.discarded_cards[si])
+            rest = sum(1 for x in st.standing_pat_or_discarding_statuses if x)
+            need = target - done
+            lo, hi = max(0, need - len(h) * (rest - 1)), min(len(h), need)
+            k = rng.randint(lo, hi) if 0 <= lo <= hi else rng.randint(0, len(h))
+            cs = rng.sample(h, k)
+        elif rng.random() < pol.discard and h:
             k = rng.randint(1, len(h))
             cs = rng.sample(h, k)
         else:
